@@ -17,6 +17,7 @@ RULE = ("operations: one- and two-qubit parametric built-ins x a parameter-expre
         "assignments of the remaining symbols, free symbols, every split m = m1 + m2; circuits: all 2-operation circuits of a sub-alphabet. "
         "non-trivial = map binds at least one symbol the operation depends on")
 RULE += ' Also: one map object updated in place between binds (every history of 2-3 updates).'
+RULE += ' Round 5: parameters containing bound variables (Sum index, Integral variable); non-real map values for gate operations.'
 ASSUMPTIONS = ["chained maps (a value mentioning a key) are excluded: 'the same values' has no single meaning there", "matrices compared at two numeric assignments of the remaining symbols (entries are analytic in them)"]
 BOUNDS = {"quick": {"map_values": "u, 0.3, e, 0 on (alpha,beta,c) + superfluous-key family + float/sympy zeros", "maps": 90}, "thorough": {"map_values": "u, 0.3, e, -1.2, 1/3, 0, 0.0", "maps": 369}}
 A, B, Cc, D, E = sympy.symbols("alpha beta c d e")
